@@ -118,7 +118,32 @@ def gen_case(rng, index, tier):
         dt = rand_datetime(rng)
         case['put_clock'] = '%04d-%02d-%02dT%02d:%02d:%02d' % (
             dt.year, dt.month, dt.day, dt.hour, dt.minute, dt.second)
+    elif rng.random() < 0.6:
+        # the real clock in a time zone far from the harness's: DeletionDate
+        # is LOCAL time
+        case['tz'] = rng.choice(['Asia/Kolkata', 'Pacific/Kiritimati',
+                                 'Etc/GMT+12', 'Europe/Rome',
+                                 'EST5EDT,M3.2.0,M11.1.0', 'Australia/Lord_Howe'])
+        case['env'] = dict(case['env'], TZ=case['tz'])
     return case
+
+
+def local_now(tz):
+    """the wall-clock reading of 'now' in zone tz (None: the harness's)"""
+    import time
+    if not tz:
+        return datetime.datetime.now().replace(microsecond=0)
+    old = os.environ.get('TZ')
+    os.environ['TZ'] = tz
+    time.tzset()
+    try:
+        return datetime.datetime(*time.localtime(time.time())[:6])
+    finally:
+        if old is None:
+            del os.environ['TZ']
+        else:
+            os.environ['TZ'] = old
+        time.tzset()
 
 
 def run_direct(case):
@@ -194,9 +219,11 @@ def run_case(case):
             plan['put_clock'] = case['put_clock']
         argv = [world.subst(o, w.R) for o in case['opts']] + \
             ['--', world.subst(a['spelling'], w.R)]
-        t_before = datetime.datetime.now().replace(microsecond=0)
+        t_before = local_now(case.get('tz'))
         r = run.run(w, 'put', argv, stdin=b'', plan=plan, contracts=ALLC)
-        t_after = datetime.datetime.now().replace(microsecond=0)
+        t_after = local_now(case.get('tz'))
+        if case.get('tz'):
+            obs['wall_clock_in_other_zone'] = 1
         s1 = w.snapshot()
         if r.timeout or r.audit_ok() is False:
             out['verdict'] = 'inconclusive'
